@@ -199,7 +199,15 @@ class Driver(object):
             return w
         codes = IL.code_of(rc.Node.find_slot, rc.Node.allocate_slot, rc.Node.deallocate_slot,
                            rc.NodeList.find_slots, rc.NodeList.release_slots, rc.NodeList._assert_rr)
-        r = IL.run_pair(wrap('a', fa), wrap('b', fb), codes, case['k'], block_s=0.05, total_s=10.0)
+        # once the held thread is released both run freely: a long switch interval lets the running thread go on
+        # until it blocks or ends, which makes the outcome after the hold point repeatable
+        import sys
+        old = sys.getswitchinterval()
+        sys.setswitchinterval(0.05)
+        try:
+            r = IL.run_pair(wrap('a', fa), wrap('b', fb), codes, case['k'], block_s=0.05, total_s=10.0)
+        finally:
+            sys.setswitchinterval(old)
 
         def canon(tag, ex):
             if tag not in out:
@@ -719,6 +727,9 @@ class AppSlots(Prop):
         if k == 'pair' and clause == 'linearizable':
             errs = [r[2] for r in (obs['ra'], obs['rb']) if r[0] == 'err' and r[1] in ('EOther', 'EType')]
             return clause + (':exception' if errs else ':outcome')
+        if k == 'pair' and obs.get('b_blocked'):
+            # the second thread waited for a lock of the held one: what follows the release is a free race
+            return clause + ':second_thread_waited'
         return clause
 
     def shrink(self, case):
